@@ -40,9 +40,11 @@ pub struct Ctx {
 impl Ctx {
     /// Per-shard number of cases for this tier.
     pub fn n(&self, quick: u64, thorough: u64) -> u64 {
+        // reduced (interpreter) runs are sized relative to the quick count in both tiers;
+        // the plan's scale factor alone makes their thorough variant larger
         let total = match self.tier {
-            Tier::Quick => quick,
-            Tier::Thorough => thorough,
+            Tier::Thorough if self.scale >= 0.2 => thorough,
+            _ => quick,
         } as f64
             * self.scale;
         let per = (total / self.nshards as f64).ceil() as u64;
